@@ -539,6 +539,32 @@ def r048_wiring(ctx, rule="R04.8"):
              (c is A.C._not(is_eo) and b_ is calls[eo].data["result"] and a_ is calls[simple].data["result"])
     ctx.ob(rule, fq, st[0].node, ok, "the equalized-odds routine runs exactly for constraints == 'equalized_odds'" if ok else
            "the optimisation routine is not selected by constraints == 'equalized_odds'", construct="routine dispatch")
+    # the metric that is equalised: x_metric_ = SIMPLE_CONSTRAINTS[constraints] with <m>_parity -> <m> (demographic parity is
+    # selection-rate parity); equalized odds uses the ROC axes
+    tab = A.ev.eval_src("SIMPLE_CONSTRAINTS", {}, module=M_TO)
+    entries = {}
+    t_ = tab
+    while t_.op == "modconst":
+        t_ = t_.args[1]
+    if t_.op == "dict":
+        entries = {const_value(k): (const_value(v) if v.op == "const" else None) for k, v in t_.args[0] if k.op == "const"}
+    want_tab = {"selection_rate_parity": "selection_rate", "demographic_parity": "selection_rate",
+                "false_positive_rate_parity": "false_positive_rate", "false_negative_rate_parity": "false_negative_rate",
+                "true_positive_rate_parity": "true_positive_rate", "true_negative_rate_parity": "true_negative_rate"}
+    wrong = sorted(k for k in set(entries) | set(want_tab) if entries.get(k) != want_tab.get(k))
+    ctx.ob(rule, M_TO + ":<module>", None, not wrong, "SIMPLE_CONSTRAINTS maps every <metric>_parity to <metric> and demographic_parity "
+           "to selection_rate" if not wrong else f"SIMPLE_CONSTRAINTS maps {wrong} to {[entries.get(k) for k in wrong]}: the optimiser "
+           "equalises a different metric than the one the constraint names", construct="constraint -> metric table")
+    xm = {A.C.canon(e.data["value"]) for e in stores_attr(r, "x_metric_")}
+    ym = {A.C.canon(e.data["value"]) for e in stores_attr(r, "y_metric_")}
+    okm = xm == {A.C.canon(const("false_positive_rate")), A.C.canon(A.entry(r, "SIMPLE_CONSTRAINTS[self.constraints]"))} and \
+        ym == {A.C.canon(const("true_positive_rate")), A.C.canon(A.entry(r, "self.objective"))}
+    for e in stores_attr(r, "x_metric_") + stores_attr(r, "y_metric_"):
+        lits = [A.C.canon(l) for l in pc_literals(e.pc)]
+        roc = e.data["value"].op == "const"
+        okm = okm and ((is_eo in lits) if roc else (A.C._not(is_eo) in lits))
+    ctx.ob(rule, fq, None, okm, "x_metric_ / y_metric_ are (FPR, TPR) for equalized odds, else (SIMPLE_CONSTRAINTS[constraints], objective)",
+           construct="metric axes")
     val = calls_to(r, M_IV + ":_validate_and_reformat_input")
     sp = calls_to(r, "fairlearn.utils._common:_get_soft_predictions")
     est = stores_attr(r, "estimator_")
